@@ -313,6 +313,7 @@ func cmdCheck(args []string) int {
 		params map[string]int64
 	}
 	var concRuns []concRun
+	cfgOf := map[string]sym.Config{}
 
 	for _, h := range spec.Harnesses {
 		if *only != "" && h.Func != *only {
@@ -328,6 +329,7 @@ func cmdCheck(args []string) int {
 		if h.Tune != nil {
 			h.Tune(&cfg, thorough)
 		}
+		cfgOf[h.Func] = cfg
 		e := sym.NewEngine(prog.Prog, cfg)
 		if err := e.Bind(prog, h.Func); err != nil {
 			fmt.Fprintln(os.Stderr, "INCONCLUSIVE:", err)
@@ -466,8 +468,35 @@ func cmdCheck(args []string) int {
 			}
 			what := fmt.Sprintf("%s %s:%s at %s - %s", v.Harness, v.Kind, v.Label, v.Site, v.Msg)
 			if noNative {
-				fmt.Printf("INCONCLUSIVE: counterexample for %s cannot be replayed natively (stubbed environment): %s\n", id, what)
-				problems++
+				// the environment of this harness is stubbed (sockets, TLS, protobuf...):
+				// the counterexample is replayed in the interpreter on its recorded
+				// draws - the real code of /repo under the stated stubs - and
+				// reported with that qualification
+				re := sym.NewEngine(prog.Prog, cfgOf[hfn])
+				re.Bind(prog, hfn)
+				_, rerr := re.RunConcrete(0, [][]sym.Draw{v.Draws})
+				_, again := re.Violations[v.Key()]
+				ev.Replays++
+				if rerr != nil || !again {
+					fmt.Printf("INCONCLUSIVE: counterexample did not reproduce in the interpreter replay: %s [%s]\n", what, path)
+					problems++
+					continue
+				}
+				isKnown := false
+				for _, k := range known.Findings {
+					if k.Property == id && (k.Harness == "" || k.Harness == hfn) && strings.Contains(v.Kind+":"+v.Label, k.Match) {
+						fmt.Printf("KNOWN-FINDING: property=%s %s\n", id, k.What)
+						isKnown = true
+						knownHits++
+						break
+					}
+				}
+				if isKnown {
+					continue
+				}
+				fmt.Printf("counterexample reproduced by interpreter replay on the recorded inputs (real code of /repo, environment stubbed as listed in the evidence; a native replay needs the real environment): %s\n", what)
+				fmt.Printf("VIOLATION property=%s replay=%s\n", id, path)
+				violations++
 				continue
 			}
 			res, err := runNative(br.bin, hfn, []string{path}, 20*time.Second)
